@@ -303,6 +303,8 @@ def _offsets(repo, col):
     ex = idx.expander(repo, fi)
     # branch_edges pairs every branch k that has a parent with that parent: parent = comb_parents[mask], child = where(mask)[0], ONE mask
     be = [s_ for s_ in ex.stores if s_.kind == "attr" and s_.key.name == "branch_edges"]
+    if not be:
+        col.unk(R, fi, "branch_edges pairs branch k with comb_parents[k]", "Network.__init__ no longer stores branch_edges", node=fi.node)
     if be:
         v = be[-1].value
         kv = {k.args[0].name: k.args[1] for k in T.find_all(v, lambda x: x.op == "kv") if k.args[0].op == "const"}
